@@ -45,21 +45,26 @@ def process_level(res, exe):
              ("malformed-int-cli", ["-s", "1e", "-N", 8, "-T", 0.125, "-G", 0], None, True),
              ("unknown-cfg", good, "NoSuchOption=1\n", True), ("malformed-cfg", good, "alpha0=abc\n", True),
              ("missing-config", good, "MISSING", False), ("missing-config-named-default.cfg", good, "MISSING-DEFAULT", False),
-             ("malformed-cfg-under-cli", good, "GridSize=abc\n", True), ("control-ok", good, "GridSize=16\n", None)]
+             ("malformed-cfg-under-cli", good, "GridSize=abc\n", True), ("control-ok", good, "GridSize=16\n", None),
+             # the plain invocation: no --config at all, no default.cfg in the working directory - the run goes ahead with what the command line says
+             ("control-no-config-option-at-all", good, "NONE", None)]
     for name, args, cfg, must_fail in cases:
         out = "o_%s.h5" % name
         a = list(args)
         base = list(pl.BASE)
         if cfg is not None:
             cpath = os.path.join(wd, name + ".cfg")
-            if cfg == "MISSING-DEFAULT":
+            if cfg == "NONE":
+                if os.path.exists(os.path.join(wd, "default.cfg")):
+                    os.remove(os.path.join(wd, "default.cfg"))
+            elif cfg == "MISSING-DEFAULT":
                 cpath = "default.cfg"      # the name the program falls back to when no --config is given - here it IS given, and there is no such file
                 if os.path.exists(os.path.join(wd, cpath)):
                     os.remove(os.path.join(wd, cpath))
             elif cfg != "MISSING":
                 with open(cpath, "w") as f:
                     f.write(cfg)
-            base = ["--config", cpath, "--cldev", "0"]
+            base = ["--config", cpath, "--cldev", "0"] if cfg != "NONE" else ["--cldev", "0"]
         cmd = [exe] + base + ["-o", out] + [str(x) for x in a]
         r = subprocess.run(cmd, cwd=wd, env=vlib.env(), capture_output=True, text=True)
         log = r.stdout + r.stderr
